@@ -469,6 +469,10 @@ def run_case(ctx, model, recipe, k, rng, accessors=True, tag="gen"):
         raise Infra(f"could not build {G.describe(recipe)}: {e!r}") from e
     key = G.describe(recipe)
     skip = _skip_fields(recipe)
+    # GenericSubproblemSolver minimises the x-sub-problem numerically (inexact by design): the documented argmin is
+    # compared at 1e-5, and only step by step from the real pre-state
+    generic = a == "admm" and recipe.get("solver") == "generic"
+    rt = 1e-5 if generic else RTOL
     # constructor state against the model's init
     init = b.read()
     kw = {}
@@ -508,7 +512,7 @@ def run_case(ctx, model, recipe, k, rng, accessors=True, tag="gen"):
             ctx.count("discarded:bb-quotient-at-rounding-level")
             break
         m_iter = G.state_from_wire(trace[i])
-        fld_iter = None if drifted else G.states_close(post, m_iter, rtol=RTOL * 10, skip=skip)
+        fld_iter = None if (drifted or (generic and i > 0)) else G.states_close(post, m_iter, rtol=rt if generic else RTOL * 10, skip=skip)
         fld = fld_iter
         if i > 0:
             # sharp single-step comparison from the real pre-state: this IS the property (one call of step() on a
@@ -517,7 +521,7 @@ def run_case(ctx, model, recipe, k, rng, accessors=True, tag="gen"):
             # deviation of the iterated trace alone (seed 5 thorough: 1e-6 relative after 30 steps while every single
             # step agreed to 1e-15) is counted, not reported.
             m_one = G.state_from_wire(model.call("step", alg=b.model_alg, p=b.p, s=G.state_json(pre), k=1, mode="impl")[0])
-            fld = G.states_close(post, m_one, rtol=RTOL, skip=skip)
+            fld = G.states_close(post, m_one, rtol=rt, skip=skip)
             m_iter = m_one
             if fld is None and fld_iter is not None:
                 ctx.count("discarded:iterated-trace-drift(single-step agrees)")
@@ -600,6 +604,28 @@ def check_constructors(ctx, model):
                 ctx.case({"config": f"ADMM.__init__ len(g,C,rho)=({ng},{nc},{nrho})"}, ("admm-init", ng, nc, nrho), sample_every=27)
                 if impl != mod:
                     ctx.disagree("steps.admm.init_checked", {"ng": ng, "nc": nc, "nrho": nrho}, list(impl), list(mod))
+
+    # the empty constraint list N = 0 with every kind of sub-problem solver, with and without x0
+    from scico.optimize.admm import CircularConvolveSolver, GenericSubproblemSolver, MatrixSubproblemSolver
+
+    for sname, mk, reduces in (("generic", GenericSubproblemSolver, False), ("linear", LinearSubproblemSolver, True),
+                               ("matrix", MatrixSubproblemSolver, True), ("circ", CircularConvolveSolver, True)):
+        for x0none in (False, True):
+            try:
+                a = ADMM(f=f, g_list=[], C_list=[], rho_list=[], x0=None if x0none else x0, subproblem_solver=mk(), maxiter=1)
+                impl = ("ok", [len(a.z_list), len(a.u_list), len(a.z_list_old)])
+            except Exception as e:  # noqa: BLE001
+                impl = ("err", common.err_kind(e))
+            try:
+                r = model.call("init_checked", alg="admm", ng=0, nc=0, nrho=0, n=n, reduces=reduces, x0none=x0none)
+                mod = ("ok", [r["nz"], r["nu"], r["nzold"]])
+            except ModelErr as e:
+                mod = ("err", e.kind)
+            ctx.count("constructor:admm-N0:" + sname + ":" + ("accepted" if impl[0] == "ok" else "rejected-" + str(impl[1])))
+            ctx.case({"config": f"ADMM.__init__ N=0 solver={sname} x0={'None' if x0none else 'given'}"},
+                     ("admm-init-N0", sname, x0none), sample_every=8)
+            if impl != mod:
+                ctx.disagree("steps.admm.init_full", {"N": 0, "solver": sname, "x0none": x0none}, list(impl), list(mod))
 
     class NoProx(functional.Functional):
         has_eval = True
